@@ -1,2 +1,106 @@
-import ColaVerif.Lemmas.OpMatmat
-#print axioms Op.rmm_eq
+import ColaVerif.Lemmas.OpIndex
+
+/-!
+# C20 — indexing and slicing an operator match indexing the represented matrix
+
+`A.getitem ids` : the code model of `A[ids]` (`LinearOperator.__getitem__`,
+cola/ops/operator_base.py:159-189, the `match` case by case: rows through `A.T @ e_i`, columns
+through `A @ e_j`, sub-operators as lazy `Sliced`); `Op.npIndex r c D ids` : NumPy indexing of the
+represented `r × c` matrix `D` (specification); `GRes.Agree code spec` : scalars equal, vectors
+equal entrywise, operators of equal shape whose `to_dense()` (code side) equals the represented
+matrix (spec side) on the window, errors of the same class.
+
+Hypotheses: `A.wf`, `A.dupSlice = false`, `A.HermOK` (as in C01), `A.RealTyped` (as in C02: row
+extraction goes through `A.T`), and the named clauses
+* `NoArrPair ids`     — not both positions integer index arrays (`C20_arrayPair_clause_needed`);
+* `NoDupIx A ids`     — the built `Sliced` operator repeats no index (`C20_dupIx_clause_needed`);
+* `EqualLenLists ids` — two index lists have equal length (`C20_listZip_clause_needed`).
+-/
+
+namespace C20
+variable {R : Type} [CommRing R] [StarRing R] [DecidableEq R]
+
+open Op in
+/-- `A[ids]` agrees with NumPy indexing of the represented matrix, for every index form of the
+`match` of `__getitem__`: `A[i]`, `A[s]`, `A[b, j]`, `A[i, b]`, `A[s0, s1]`, `A[[i…], [j…]]`
+(negative indices, strided / reversed slices, index arrays, non-square operators of every kind),
+and both sides answer `NotImplemented` for everything else. -/
+theorem C20_getitem_partial (A : Op R) (ids : List GIx) (hwf : A.wf = true)
+    (hnd : A.dupSlice = false) (hh : A.HermOK) (hr : A.RealTyped)
+    (hp : NoArrPair ids) (hn : NoDupIx A ids) (he : EqualLenLists ids) :
+    GRes.Agree (A.getitem ids) (npIndex A.rows A.cols A.den.f ids) :=
+  getitem_agree A ⟨hwf, hnd, hh⟩ hr ids hp hn he
+
+/-- readable special case `A[i, j]` (either sign): the entry of the represented matrix. -/
+theorem C20_entry (A : Op R) (hwf : A.wf = true) (hnd : A.dupSlice = false) (hh : A.HermOK)
+    (i j : Int) (p q : Nat) (hi : GRes.wrap A.rows i = some p) (hj : GRes.wrap A.cols j = some q) :
+    A.getitem [.int i, .int j] = .scalar (A.colVec q p) ∧ A.colVec q p = A.den.f p q := by
+  refine ⟨by simp [Op.getitem, GRes.indexVec, hi, hj], ?_⟩
+  exact Op.colVec_eq A ⟨hwf, hnd, hh⟩ q p (GRes.wrap_lt _ _ _ hj) (GRes.wrap_lt _ _ _ hi)
+
+/-- readable special case `A[i]` / `A[i, :]`-style row: entry `t` of the returned vector. -/
+theorem C20_row (A : Op R) (hwf : A.wf = true) (hnd : A.dupSlice = false) (hh : A.HermOK)
+    (hr : A.RealTyped) (i : Int) (p : Nat) (hi : GRes.wrap A.rows i = some p) :
+    A.getitem [.int i] = .vec A.cols (A.rowVec p) ∧
+      ∀ t, t < A.cols → A.rowVec p t = A.den.f p t := by
+  refine ⟨by simp [Op.getitem, hi], fun t ht => ?_⟩
+  exact Op.rowVec_eq A ⟨hwf, hnd, hh⟩ hr p t (GRes.wrap_lt _ _ _ hi) ht
+
+/-! ## the clauses exclude real differences -/
+
+/-- `NoArrPair` is needed: for two integer index arrays the code returns the 2 × 2 outer
+sub-operator `A[[0,1]][:, [1,0]]`, NumPy pairs them into the vector `[A[0,1], A[1,0]]`. -/
+theorem C20_arrayPair_clause_needed :
+    let A : Op Int := .dense .f64 2 2 (fun i j => 2 * i + j)
+    let ids : List GIx := [.ix (.arr [0, 1]), .ix (.arr [1, 0])]
+    A.getitem ids = .op (.sliced A (.arr [0, 1]) (.arr [1, 0])) ∧
+      (∃ v, Op.npIndex A.rows A.cols A.den.f ids = .vec 2 v) ∧
+      ¬ GRes.Agree (A.getitem ids) (Op.npIndex A.rows A.cols A.den.f ids) := by
+  simp [Op.getitem, Op.npIndex, Op.rows, Op.cols, Ix.resolve, GRes.wrapAll, GRes.wrap,
+    GRes.Agree]
+
+/-- `NoDupIx` is needed: `to_dense()` of a `Sliced` operator with a repeated column index goes
+through the scatter `Y[idx] = X` (last write wins) — kernel-level witness: parent `[1 2]`,
+columns `[0, 0]`, operand `I₂`: the code gives `[0 1]`, the represented matrix is `[1 1]`. -/
+theorem C20_dupIx_clause_needed :
+    let A : MatF Int := fun _ j => if j = 0 then 1 else 2
+    let act : MatF Int → MatF Int := fun Y => mmul 2 A Y
+    (slicedMatmat act [0] [0, 0] eyeM).f 0 0 = 0 ∧ slicedDen A [0] [0, 0] 0 0 = 1 := by
+  decide
+
+/-- `EqualLenLists` is needed: the code zips the two lists (truncating to the shorter), the
+specification rejects lists of different lengths. -/
+theorem C20_listZip_clause_needed :
+    let A : Op Int := .dense .f64 2 2 (fun i j => 2 * i + j)
+    let ids : List GIx := [.list [0, 1], .list [0]]
+    (∃ v, A.getitem ids = .vec 1 v) ∧
+      Op.npIndex A.rows A.cols A.den.f ids = .err "index-error" ∧
+      ¬ GRes.Agree (A.getitem ids) (Op.npIndex A.rows A.cols A.den.f ids) := by
+  simp [Op.getitem, Op.npIndex, Op.rows, Op.cols, GRes.wrap, GRes.Agree]
+
+/-- non-vacuity: a nested non-square tree (4 × 2) with a reversed strided slice and an index
+array satisfying all hypotheses and clauses. -/
+example :
+    let A : Op Int := .kron [.dense .f64 2 1 (fun i _ => i + 1),
+      .prod [.dense .f64 2 2 (fun i j => i + j), .diag .f64 2 (fun i => i + 2)]]
+    let ids : List GIx := [.ix (.slice (some (-1)) none (some (-2))), .ix (.arr [1, -2])]
+    A.wf = true ∧ A.dupSlice = false ∧ A.HermOK ∧ A.RealTyped ∧ Op.NoArrPair ids ∧
+      Op.NoDupIx A ids ∧ Op.EqualLenLists ids := by
+  refine ⟨?_, ?_, ?_, ?_, ?_, ?_, ?_⟩
+  · simp [Op.wf, Op.chainOk, Op.rows, Op.cols]
+  · simp [Op.dupSlice]
+  · simp [Op.HermOK, Op.HermNode, Op.isa, Op.anns, AnnSet.isa, AnnSet.inter, AnnSet.interAll,
+      Op.isTA, Op.isT, Op.areTheSame, Op.core, Op.isScalarMul]
+  · simp [Op.RealTyped]
+  · simp [Op.NoArrPair]
+  · simp [Op.NoDupIx, Op.rows, Op.cols, Ix.resolve, Ix.sliceIndices, Ix.rangeList]
+  · simp [Op.EqualLenLists]
+
+end C20
+
+#print axioms C20.C20_getitem_partial
+#print axioms C20.C20_entry
+#print axioms C20.C20_row
+#print axioms C20.C20_arrayPair_clause_needed
+#print axioms C20.C20_dupIx_clause_needed
+#print axioms C20.C20_listZip_clause_needed
